@@ -1692,9 +1692,13 @@ def compile_function_def(compiler, expr, root, is_async, decorators, tp, name, p
     with compiler.local_state(), compiler.scope.create(ScopeFn, args, is_async) as scope:
         body = compiler._compile_branch(body)
 
-    return ret + compile_function_node(
+    ret += compile_function_node(
         compiler, expr, node, decorators, tp, name, args, returns, body, scope
     )
+    # The function's name is the user's, not a temporary: an enclosing
+    # `setv` mustn't rename the definition to its own target.
+    ret.temp_variables = []
+    return ret
 
 
 def compile_function_node(compiler, expr, node, decorators, tp, name, args, returns, body, scope):
